@@ -86,8 +86,15 @@ func (o *operations) Done() {
 	enqueued := o.tryEnqueue(func() {
 		wg.Done()
 	})
+	busyCh := o.busyCh
 	o.mu.Unlock()
 	if !enqueued {
+		// The queue is closed, so nothing can be added anymore:
+		// wait for the operations that were enqueued before.
+		if busyCh != nil {
+			<-busyCh
+		}
+
 		return
 	}
 	verifhook.Point("ops.done.wait")
@@ -139,18 +146,18 @@ func (o *operations) start() {
 		verifhook.Point("ops.start.exit")
 		o.mu.Lock()
 		defer o.mu.Unlock()
-		// this wil lbe the most recent busy chan
-		close(o.busyCh)
-
-		if o.ops.Len() == 0 || o.isClosed {
+		if o.ops.Len() == 0 {
+			// this wil lbe the most recent busy chan
+			close(o.busyCh)
 			o.busyCh = nil
 
 			return
 		}
 
 		// either a new operation was enqueued while we
-		// were busy, or an operation panicked
-		o.busyCh = make(chan struct{})
+		// were busy, or an operation panicked.
+		// The busy chan stays open until the queue is drained, so that
+		// GracefulClose also waits for operations enqueued before it was called.
 		go o.start()
 	}()
 
